@@ -118,10 +118,11 @@ const (
 )
 
 func literalStringMustEscapeRune(r rune, ascii bool) stringLiteralQuoteRuneEscapeMode {
-	// canonical N-Quads: ECHAR for BS HT LF FF CR " \, UCHAR for the remaining C0 controls and DEL
+	// canonical N-Quads: ECHAR for BS HT LF FF CR " \, UCHAR for the remaining C0 controls, DEL and the code points
+	// outside the XML 1.1 Char production (U+FFFE, U+FFFF)
 	if r == 0x0022 || r == 0x005C || r == 0x000A || r == 0x000D || r == 0x0009 || r == 0x0008 || r == 0x000C {
 		return stringLiteralQuoteRuneEscapeECHAR
-	} else if r <= 0x001F || r == 0x007F {
+	} else if r <= 0x001F || r == 0x007F || r == 0xFFFE || r == 0xFFFF {
 		return stringLiteralQuoteRuneEscapeUCHAR4
 	} else if ascii {
 		if r > 0xffff {
